@@ -3,7 +3,10 @@ import io
 import locale
 import os
 import random
+import sys
 import tempfile
+import types
+import unicodedata
 
 from vf import gen, probes, snap
 from vf.teq import canon
@@ -22,7 +25,12 @@ RULE = ('abstract statement lists (bindings with literal / @reference / %macro v
         'abstract program; (c) the same text given as list/tuple of lines, StringIO, BytesIO or file gives the same result as the string. '
         'Negative: scoped names with inner whitespace (blank, tab, form feed, continuation), empty components or misplaced separators, generated from '
         'valid names and placed as flat key, macro key, block header, block member, reference/macro value, container item, dict key/value, on a later '
-        'line, after a rendered valid prefix program, raise and bind nothing. distinct = (statement-kind sequence, layout feature set)')
+        'line, after a rendered valid prefix program, raise and bind nothing. Names: identifiers with non-ASCII word characters (generated; valid Python '
+        'identifiers) as parameter names (flat and block member), scope components (keys, block headers, macro definitions, references), macro names, '
+        'import aliases, from-imported names and module components. skip_unknown: the statements re-rendered with bindings/blocks of unregistered '
+        'configurables interleaved and read with skip_unknown=True / a list, tuple or set naming them (plus macro names and unrelated names) give '
+        'exactly the abstract program of the other statements (macro definitions included). '
+        'distinct = (statement-kind sequence, layout feature set)')
 TIERS = {
     'quick': {'workers': 8, 'cases': 1000, 'timeout': 600},
     'thorough': {'workers': 16, 'cases': 15000, 'timeout': 3000},
@@ -37,22 +45,30 @@ LAYOUTS = ['blank-lines', 'comment-line', 'trailing-comment', 'comment-with-raw-
 ENTRY_FORMS = ['list-of-lines', 'tuple-of-lines', 'stringio', 'bytesio', 'file']
 NEG_CONTEXTS = ['flat-key', 'macro-def-key', 'block-header', 'block-member', 'ref-value', 'macro-value', 'in-list', 'dict-key', 'dict-value', 'later-line',
                 'after-triple-quoted']
+SKIP_MODES = ['True', 'list', 'tuple', 'set']
 NEG_OPS = ['inner-whitespace', 'form-feed', 'continuation', 'empty-component', 'misplaced-separator']
 REQUIRED_BUCKETS = (['layout:' + l for l in LAYOUTS] + ['stmt:bind', 'stmt:macro', 'stmt:scoped-macro', 'stmt:import', 'stmt:import-as', 'stmt:from', 'stmt:from-as',
                     'stmt:include', 'value:reference', 'value:macro', 'neg:inner-whitespace', 'neg:empty-component', 'neg:misplaced-separator', 'neg:in-reference',
                     'neg:in-block-header', 'neg:in-import', 'neg:continuation-inside-name', 'neg:spelling-valid-elsewhere-first', 'renderings:3+', 'stmt:keyword-named',
                     'value:container-with-references', 'neg:in-block-member', 'neg:in-dict', 'neg:in-macro-key', 'neg:form-feed',
-                    'shape:empty-text', 'shape:whitespace-only', 'shape:comment-only', 'imports:alias-recorded']
+                    'shape:empty-text', 'shape:whitespace-only', 'shape:comment-only', 'imports:alias-recorded',
+                    'name:non-ascii-param-flat', 'name:non-ascii-param-in-block', 'name:non-ascii-scope-in-key', 'name:non-ascii-scope-in-block-header',
+                    'name:non-ascii-scope-in-macro-key', 'name:non-ascii-macro-name', 'name:non-ascii-in-reference', 'name:non-ascii-import-alias',
+                    'name:non-ascii-from-name', 'name:non-ascii-module-component',
+                    'skip-unknown:True', 'skip-unknown:list', 'skip-unknown:tuple', 'skip-unknown:set', 'skip-unknown:text-has-macro-definition',
+                    'skip-unknown:macro-name-listed', 'skip-unknown:unknown-binding-flat', 'skip-unknown:unknown-binding-in-block', 'skip-unknown:nothing-unknown']
                     + ['entry:' + f for f in ENTRY_FORMS] + ['empty-entry:' + f for f in ['string'] + ENTRY_FORMS]
                     + ['neg-ctx:' + c for c in NEG_CONTEXTS] + ['neg-op:' + o for o in NEG_OPS])
 ORACLE_COUNTERS = ['oracle_evals', 'streams_compared', 'renderings_parsed', 'negatives_rejected', 'entry_forms_compared', 'generated_negatives_rejected',
-                   'empty_texts_parsed']
+                   'empty_texts_parsed', 'skip_unknown_parses_compared']
 
 # Generator features that can be switched off (none needs to be at the moment: gin behaves as the property says on all of them).
 ENABLE_NESTED_REFERENCES = True
 ENABLE_ENTRY_FORMS = True
 ENABLE_GENERATED_NEGATIVES = True
 ENABLE_EMPTY_TEXTS = True
+ENABLE_NON_ASCII_NAMES = True     # identifiers with non-ASCII word characters in every role a name can play
+ENABLE_SKIP_UNKNOWN = True        # one more rendering read with skip_unknown set: only bindings/blocks of unregistered configurables may go
 
 NEGATIVES = [
     ('neg:inner-whitespace', 'a /c3f.x = 1'), ('neg:inner-whitespace', 'a/ c3f.x = 1'), ('neg:inner-whitespace', 'c3f. x = 1'), ('neg:inner-whitespace', 'c3f .x = 1'),
@@ -102,10 +118,75 @@ EMPTY_SHAPES = ['', '   ', '# c', '\n', '  \n', '# c\n', '\t', '\t\n', '  # c', 
                 '# c3f.x = 1\x0bc3f.y = 2\n', '#', '#\n#\n', '    # c3f:\n    #   x = 1\n']
 
 
+# Word characters outside ASCII that Python allows inside an identifier and that NFKC normalisation leaves alone (letters of several scripts and a
+# decimal digit): the grammar's identifier is "a letter or underscore followed by word characters", whatever the role the name plays.
+NON_ASCII_WORD_CHARS = '\u00f6\u00df\u00e9\u00f1\u00e7\u03bb\u0436\u3042\u540d\u0663'
+
+
+def uni_ident(rng):
+  """A valid identifier (ASCII letter or underscore first) holding at least one non-ASCII word character."""
+  body = [rng.choice(NON_ASCII_WORD_CHARS)] + [rng.choice(NON_ASCII_WORD_CHARS + 'abxyz_019') for _ in range(rng.randrange(0, 5))]
+  rng.shuffle(body)
+  name = rng.choice('abcmpxyz_') + ''.join(body)
+  assert name.isidentifier() and unicodedata.normalize('NFKC', name) == name and not name.isascii(), name
+  return name
+
+
+def _uni_pool(n, seed):
+  rng, out = random.Random(seed), []
+  while len(out) < n:
+    name = uni_ident(rng)
+    if name not in out:
+      out.append(name)
+  return out
+
+
+UNI = _uni_pool(12, 303)
+UNI_PARAMS = UNI[:4]                # parameters of the probes
+PARAMS = ['x', 'y', 'zz', 'w_1']
+# importable stand-ins (registered in sys.modules by setup): a module whose last component, and a package whose middle component, is non-ASCII
+UNI_MODULES = ['c3pkg.' + UNI[8], 'c3pkg.' + UNI[9] + '.leaf']
+# selectors no configurable is registered under
+UNKNOWN_SELECTORS = ['c3_unregistered', 'nowhere.c3_unregistered', 'c3.m.c3_nope', 'c3f_x']
+
+
+def uni_scope(rng):
+  k = rng.randrange(4)
+  if k == 0:
+    return rng.choice(UNI)
+  if k == 1:
+    return rng.choice(['a', 'train', 'x/y']) + '/' + rng.choice(UNI)
+  if k == 2:
+    return rng.choice(UNI) + '/' + rng.choice(['b', 'eval', 'import'])
+  return rng.choice(UNI) + '/' + rng.choice(UNI)
+
+
 def setup(ctx):
   for name in ('c3f', 'c3g', 'c3h', 'include'):
-    probes.build({'shape': 'fn', 'api': 'external', 'name': name, 'module': 'c3.m', 'pos': [], 'dflt': [['x', 0], ['y', 0], ['zz', 0], ['w_1', 0]],
-                  'varargs': False, 'kwonly': [], 'varkw': False})
+    probes.build({'shape': 'fn', 'api': 'external', 'name': name, 'module': 'c3.m', 'pos': [],
+                  'dflt': [[n, 0] for n in PARAMS + UNI_PARAMS], 'varargs': False, 'kwonly': [], 'varkw': False})
+  for mod in UNI_MODULES:
+    parts = mod.split('.')
+    for k in range(1, len(parts) + 1):
+      full = '.'.join(parts[:k])
+      if full not in sys.modules:
+        m = types.ModuleType(full)
+        m.__path__ = []
+        sys.modules[full] = m
+        if k > 1:
+          setattr(sys.modules['.'.join(parts[:k - 1])], parts[k - 1], m)
+
+
+def gen_ref_name(rng):
+  if ENABLE_NON_ASCII_NAMES and rng.random() < 0.12:
+    return uni_scope(rng) + '/' + rng.choice(['c3g', 'm.c3h'])
+  return rng.choice(REF_NAMES)
+
+
+def gen_macro_use(rng):
+  if ENABLE_NON_ASCII_NAMES and rng.random() < 0.12:
+    return rng.choice([rng.choice(UNI), uni_scope(rng) + '/' + rng.choice(['c3mac', rng.choice(UNI)])])
+  return rng.choice(MACRO_NAMES)
 
 
 def gen_mix(rng, depth):
@@ -117,9 +198,9 @@ def gen_mix(rng, depth):
   def leaf():
     r = rng.random()
     if r < 0.35:
-      return ['ref', rng.choice(REF_NAMES), rng.random() < 0.6]
+      return ['ref', gen_ref_name(rng), rng.random() < 0.6]
     if r < 0.55:
-      return ['macro', rng.choice(MACRO_NAMES)]
+      return ['macro', gen_macro_use(rng)]
     if r < 0.67:
       return ['tq', rng.choice(TRIPLE_QUOTED)]
     if r < 0.8 and depth > 0:
@@ -136,7 +217,7 @@ def gen_mix(rng, depth):
   items = []
   for i in range(n):
     if i == refkey_at:
-      key = ['ref', rng.choice(REF_NAMES), rng.random() < 0.5] if rng.random() < 0.6 else ['macro', rng.choice(MACRO_NAMES)]
+      key = ['ref', gen_ref_name(rng), rng.random() < 0.5] if rng.random() < 0.6 else ['macro', gen_macro_use(rng)]
     else:
       key = ['lit', rng.choice(['k%d' % i, i, 'key %d' % i])]
     items.append([key, leaf()])
@@ -162,11 +243,17 @@ def gen_stmt(rng):
     elif k < 0.6:
       v = ['lit', gen.gen_value(rng, depth=rng.choice([0, 0, 1, 2, 3]))]
     elif k < 0.85:
-      v = ['ref', rng.choice(REF_NAMES), rng.random() < 0.6]
+      v = ['ref', gen_ref_name(rng), rng.random() < 0.6]
     else:
-      v = ['macro', rng.choice(MACRO_NAMES)]
-    return ['bind', rng.choice(['', '', 'a', 'a/b', 'train', 'x/y/z', 'import', 'from/include']), rng.choice(['c3f', 'c3g', 'c3.m.c3f', 'm.c3h', 'include']),
-            rng.choice(['x', 'y', 'zz', 'w_1']), v]
+      v = ['macro', gen_macro_use(rng)]
+    scope = rng.choice(['', '', 'a', 'a/b', 'train', 'x/y/z', 'import', 'from/include'])
+    param = rng.choice(PARAMS)
+    if ENABLE_NON_ASCII_NAMES:
+      if rng.random() < 0.12:
+        scope = uni_scope(rng)
+      if rng.random() < 0.2:
+        param = rng.choice(UNI_PARAMS)
+    return ['bind', scope, rng.choice(['c3f', 'c3g', 'c3.m.c3f', 'm.c3h', 'include']), param, v]
   if r < 0.74:
     k = rng.random()
     if ENABLE_NESTED_REFERENCES and k < 0.12:
@@ -175,16 +262,23 @@ def gen_stmt(rng):
       v = ['lit', gen.gen_value(rng, depth=rng.choice([0, 1, 2]))]
     else:
       v = ['ref', 'c3g', True]
-    return ['macro', rng.choice(['c3mac', 'c3mac2', 'a/c3mac', 'a/b/mm', 'UPPER', 'from', 'import', 'include', 'a/include']), v]
+    name = rng.choice(['c3mac', 'c3mac2', 'a/c3mac', 'a/b/mm', 'UPPER', 'from', 'import', 'include', 'a/include'])
+    if ENABLE_NON_ASCII_NAMES and rng.random() < 0.2:
+      name = rng.choice([rng.choice(UNI), uni_scope(rng) + '/' + rng.choice(['c3mac', 'mm', rng.choice(UNI)])])
+    return ['macro', name, v]
   if r < 0.94:
     form = rng.choice(['import', 'import-as', 'from', 'from-as'])
     mod = rng.choice(['os', 'os.path', 'json', 'collections.abc', 'json.decoder', 'string'])
+    if ENABLE_NON_ASCII_NAMES and rng.random() < 0.2:
+      mod = rng.choice(UNI_MODULES)
     if form in ('from', 'from-as') and '.' not in mod:
       mod = {'os': 'os.path', 'json': 'json.decoder', 'string': 'collections.abc'}[mod]
     alias = None
     if form.endswith('as'):
       # aliases equal to a component of the module path are still aliases (`import os.path as os` binds the submodule)
       alias = rng.choice(['al', 'x1', '_p', mod.split('.')[0], mod.split('.')[-1]])
+      if ENABLE_NON_ASCII_NAMES and rng.random() < 0.25:
+        alias = rng.choice(UNI)
     return ['import', form, mod, alias]
   return ['include', rng.choice(['a.gin', 'dir/b.gin', 'pkg.sub/c.gin', "it's.gin"])]
 
@@ -218,7 +312,8 @@ def iter_cases(ctx, rng, n):
       continue
     stmts = gen_stmts(rng, [1, 2, 3, 5, 8, 12])
     yield {'kind': 'pos', 'stmts': stmts, 'seeds': [rng.randrange(1 << 30) for _ in range(rng.choice([2, 2, 3, 4, 5]))],
-           'entry': ENTRY_FORMS[n_pos % len(ENTRY_FORMS)]}
+           'entry': ENTRY_FORMS[n_pos % len(ENTRY_FORMS)], 'skip': SKIP_MODES[(n_pos // 3) % len(SKIP_MODES)] if n_pos % 3 == 0 else None,
+           'skip_seed': rng.randrange(1 << 30)}
     n_pos += 1
 
 
@@ -249,6 +344,8 @@ def mix_text(rng, node, used, wild, state):
       used.add('ref-on-later-line')
     if state.get('tq'):
       used.add('ref-after-triple-quoted')
+    if not node[1].isascii():
+      used.add('name:non-ascii-in-reference')
     return ('@' + node[1] + ('()' if node[2] else '')) if k == 'ref' else '%' + node[1]
   if k == 'tq':
     q = rng.choice(["'''", '"""'])
@@ -301,6 +398,8 @@ def value_text(rng, v, used, wild):
     if '\n' in text:
       used.add('multiline-value')
     return text
+  if not v[1].isascii():
+    used.add('name:non-ascii-in-reference')
   if v[0] == 'ref':
     return '@' + v[1] + ('()' if v[2] else '')
   return '%' + v[1]
@@ -461,6 +560,8 @@ def render(stmts, seed, with_includes=True, final_newline=None):
         if prev_was_block:
           used.add('block-then-block')
         hdr = (st[1] + '/' if st[1] else '') + st[2]
+        if not st[1].isascii():
+          used.add('name:non-ascii-scope-in-block-header')
         k = rng.random()
         if k < 0.12:
           used.add('space-before-block-colon')
@@ -485,6 +586,8 @@ def render(stmts, seed, with_includes=True, final_newline=None):
           e = eq()
           if '\\' in e:
             used.add('block-member-continuation')
+          if not m[3].isascii():
+            used.add('name:non-ascii-param-in-block')
           start = emit(m[3] + e + value_text(rng, m[4], used, wild) + trailing(), mind)
           expect.append((abstract(m), start))
         i += len(run)
@@ -497,9 +600,18 @@ def render(stmts, seed, with_includes=True, final_newline=None):
       if prev_was_block:
         used.add('block-then-flat')
       key = (st[1] + '/' if st[1] else '') + st[2] + '.' + st[3]
+      if not st[1].isascii():
+        used.add('name:non-ascii-scope-in-key')
+      if not st[3].isascii():
+        used.add('name:non-ascii-param-flat')
       start = emit(key + eq() + value_text(rng, st[4], used, wild) + trailing(), ind)
       expect.append((abstract(st), start))
     elif st[0] == 'macro':
+      msc, _, mname = st[1].rpartition('/')
+      if not msc.isascii():
+        used.add('name:non-ascii-scope-in-macro-key')
+      if not mname.isascii():
+        used.add('name:non-ascii-macro-name')
       start = emit(st[1] + eq() + value_text(rng, st[2], used, wild) + trailing(), ind)
       expect.append((abstract(st), start))
     elif st[0] == 'import':
@@ -511,6 +623,10 @@ def render(stmts, seed, with_includes=True, final_newline=None):
         toks = ['import', mod]
       if alias:
         toks += ['as', alias]
+        if not alias.isascii():
+          used.add('name:non-ascii-import-alias')
+      if not mod.isascii():
+        used.add('name:non-ascii-from-name' if form.startswith('from') and not mod.rpartition('.')[2].isascii() else 'name:non-ascii-module-component')
       text = toks[0]
       for t in toks[1:]:
         text += gap('cont-in-import') + t
@@ -589,10 +705,11 @@ def effective_form(text, form):
   return form
 
 
-def parse_via(gin, text, form):
+def parse_via(gin, text, form, **kw):
   """parse_config of the same text through one of the documented input forms; returns (includes, imported module names)."""
   if form == 'string':
-    return gin.parse_config(text)
+    return gin.parse_config(text, **kw)
+  assert not kw, kw
   if form == 'list-of-lines':
     return gin.parse_config(text.split('\n'))
   if form == 'tuple-of-lines':
@@ -612,9 +729,9 @@ def parse_via(gin, text, form):
     os.unlink(path)
 
 
-def observe(gin, gc, text, form):
+def observe(gin, gc, text, form, **kw):
   gin.clear_config()
-  ret = parse_via(gin, text, form)
+  ret = parse_via(gin, text, form, **kw)
   return {'store': snap.store_nonempty(gc), 'imports': sorted({(s.module, bool(s.is_from), s.alias or '') for s in gc._IMPORTS}), 'str': gin.config_str(),
           # the returned module names as a set: whether parse_config reports a module imported twice once or twice is not pinned down
           'ret_imports': sorted(set(ret[1])), 'ret_includes': list(ret[0]), 'text': text}
@@ -655,6 +772,82 @@ def model_store(stmts):
     elif s[0] == 'macro':
       exp.setdefault((s[1], 'gin.macro'), {})['value'] = store_canon(s[2])
   return exp
+
+
+# ---------------------------------------------------------------------------
+# skip_unknown: only bindings / blocks of unregistered configurables (and imports of missing modules) may be left out
+
+
+def skip_unknown_plan(stmts, mode, seed):
+  """Returns (statements with bindings of unregistered configurables interleaved, skip_unknown value, tags).
+
+  The interleaved statements are the only ones skip_unknown is about: every statement of `stmts` (macro definitions, imports, bindings of the
+  registered probes) is still spelled by the text and has to be read as without skip_unknown."""
+  rng = random.Random(seed)
+  out = [s for s in stmts if s[0] != 'include']
+  tags = set()
+  unknown = []
+  for _ in range(rng.choice([0, 1, 1, 2, 3])):
+    sel = rng.choice(UNKNOWN_SELECTORS)
+    scope = rng.choice(['', '', 'a', 'x/y/z'])
+    if ENABLE_NON_ASCII_NAMES and rng.random() < 0.15:
+      scope = uni_scope(rng)
+    names = rng.sample(PARAMS + (UNI_PARAMS if ENABLE_NON_ASCII_NAMES else []) + ['anything'], rng.choice([1, 1, 2, 3]))
+    at = rng.randrange(len(out) + 1)
+    # literal values only: what happens to references inside a skipped binding is C15's subject
+    out[at:at] = [['bind', scope, sel, n, ['lit', gen.gen_value(rng, depth=rng.choice([0, 0, 1]))]] for n in names]
+    unknown.append(sel)
+  macro_names = sorted({s[1].rpartition('/')[2] for s in out if s[0] == 'macro'})
+  if macro_names:
+    tags.add('skip-unknown:text-has-macro-definition')
+  if not unknown:
+    tags.add('skip-unknown:nothing-unknown')
+  if mode == 'True':
+    return out, True, tags
+  # the names "to skip if unknown": the unregistered selectors as written, and names that are no unknown configurable of the text at all
+  # (a registered one, an unrelated one, the name of a macro the text defines - a macro definition is not a binding of a configurable of that name)
+  names = set(unknown)
+  for n in macro_names:
+    if rng.random() < 0.6:
+      names.add(n)
+      tags.add('skip-unknown:macro-name-listed')
+  names.update(rng.sample(['c3f', 'c3.m.c3g', 'zz_unrelated', 'gin.macro', 'value', 'macro', 'a'], rng.choice([0, 1, 2])))
+  names = sorted(names)
+  rng.shuffle(names)
+  return out, {'list': list, 'tuple': tuple, 'set': set}[mode](names), tags
+
+
+def run_skip_unknown(ctx, case, gin, gc, stmts, base, want_imports):
+  """One more rendering, read with skip_unknown set."""
+  plan, value, tags = skip_unknown_plan(stmts, case['skip'], case['skip_seed'])
+  text, _, used = render(plan, case['skip_seed'])
+  shapes = set()      # how the bindings of the unregistered configurables came out (bookkeeping only)
+  for l in text.split('\n'):
+    key = l.split('#')[0].split('=')[0].strip()
+    if key.endswith(':') and key[:-1].rstrip().rpartition('/')[2] in UNKNOWN_SELECTORS:
+      shapes.add('skip-unknown:unknown-binding-in-block')
+    elif key.rpartition('/')[2].rpartition('.')[0] in UNKNOWN_SELECTORS:
+      shapes.add('skip-unknown:unknown-binding-flat')
+  try:
+    obs = observe(gin, gc, text, 'string', skip_unknown=value)
+  except Exception as e:  # pylint: disable=broad-except
+    ctx.check(False, 'valid-layout-rejected-under-skip_unknown', 'parse_config(skip_unknown=%r) raised %s: %s\n%s' % (value, type(e).__name__, str(e)[:300], text[:1500]),
+              {'text': text, 'skip_unknown': repr(value)})
+    return
+  ctx.bucket('skip-unknown:' + case['skip'])
+  for t in tags:
+    ctx.bucket(t)
+  for t in shapes:
+    ctx.bucket(t)
+  ctx.count('skip_unknown_parses_compared')
+  exp = model_store(stmts)
+  ctx.check(obs['store'] == exp, 'skip_unknown-drops-or-alters-statements-of-known-targets',
+            'skip_unknown=%r: store vs abstract program of the statements that target no unknown configurable: %r' % (value, snap.diff(obs['store'], exp)),
+            {'text': text, 'skip_unknown': repr(value)})
+  ctx.check(obs['imports'] == want_imports, 'skip_unknown-alters-recorded-imports', 'skip_unknown=%r: recorded imports %r, the text spells %r'
+            % (value, obs['imports'], want_imports), {'text': text, 'skip_unknown': repr(value)})
+  compare_observations(ctx, obs, base, stmts, 'skip_unknown-gives-different-configuration', 'skip_unknown-gives-different-config_str',
+                       'the statements read plainly and (with bindings of unregistered configurables interleaved) with skip_unknown=%r' % (value,))
 
 
 # ---------------------------------------------------------------------------
@@ -878,7 +1071,7 @@ def run_case(ctx, case):
     text, expect, used = render(stmts, seed)
     allused |= used
     for u in used:
-      ctx.bucket('layout:' + u)
+      ctx.bucket(u if u.startswith('name:') else 'layout:' + u)
     assert [e[0] for e in expect] == want
     ctx.count('streams_compared')
     try:
@@ -930,6 +1123,8 @@ def run_case(ctx, case):
         ctx.count('entry_forms_compared')
         compare_observations(ctx, alt, base, stmts, 'entry-form-gives-different-configuration:' + form, 'entry-form-gives-different-config_str:' + form,
                              'the string and the %s form of one text' % form)
+    if ENABLE_SKIP_UNKNOWN and case.get('skip'):
+      run_skip_unknown(ctx, case, gin, gc, stmts, results[0], want_imports)
   ctx.fp(tuple(kinds), tuple(sorted(allused)))
   ctx.sample({'statements': stmts[:4], 'one_rendering': render(stmts, case['seeds'][0])[0][:600]}, cap=3)
 
@@ -967,7 +1162,9 @@ LEVEL_TEXT = ('Runtime metamorphic monitor: each generated abstract statement li
               'parse_config results (store, recorded imports, config_str) are compared across layouts, across the input forms of parse_config (string, '
               'list/tuple of lines, StringIO, BytesIO, file) and with the abstract program; statement-free texts must change nothing; malformed scoped '
               'names (a fixed list and malformations generated from valid names in every syntactic position, after a rendered valid prefix) must raise '
-              'and bind nothing.')
+              'and bind nothing. Names with non-ASCII word characters are generated in every role a name plays (parameter flat / in a block, scope, '
+              'macro, reference, import alias, from-imported name, module component). One more rendering with bindings of unregistered configurables '
+              'interleaved is read with skip_unknown=True / list / tuple / set and must give the abstract program of the other statements.')
 LEVEL_NOTE = ('Trusted: the renderer in this file (it only emits layouts Python\'s tokenizer rules allow: indentation levels that extend the enclosing '
               'level\'s string, no CRLF); dicts hold at most one reference-like key (two cannot be ordered by pprint: C06\'s finding).')
 TECHNIQUE = 'runtime metamorphic monitor (layout A vs layout B vs abstract program vs input form) over a layout randomiser'
